@@ -264,3 +264,78 @@ def claim_before_read(o):
             ok = isinstance(base, int) and r["off"] + r["width"] <= base
         out.append((ok, "%s reads source[%s..%s) with only %s bytes claimed" % (r["via"], r["off"], (r["off"] or 0) + r["width"], cl), r["ev"]))
     return out
+
+
+# ---------------------------------------------------------------------------
+# shared rule groups
+
+def stateless(chk, rule, prog, eff):
+    """cbor_stream_decode allocates nothing, writes no global, owns no static (C08 r4, C09 r1)"""
+    f = prog.fn("cbor_stream_decode")
+    where_fn = "%s:%d" % (f.file, f.line)
+    S = eff.summ["cbor_stream_decode"]
+    chk.ob(rule, "no allocator call reachable", not S["allocates"] and not S["frees"], where_fn, fn=f.name, key="alloc")
+    gw = sorted(r[1] for r in S["writes"] if r[0] == "global")
+    chk.ob(rule, "no store to a global", not gw, where_fn, fn=f.name, detail=str(gw) if gw else "", key="globals")
+    callees = eff.transitive_callees("cbor_stream_decode") | {"cbor_stream_decode"}
+    statics = [g for g in prog.globals.values() if g["unit"].startswith("src/") and not g["constant"]
+               and any(g["name"].startswith(c + ".") for c in callees)]
+    chk.ob(rule, "no function-static in the decoder or its callees", not statics, where_fn, fn=f.name,
+           detail=str([g["name"] for g in statics]) if statics else "", key="statics")
+    unk = [r for r in S["writes"] if r[0] == "unknown"]
+    chk.ob(rule, "no store through a pointer of unknown provenance", not unk, where_fn, fn=f.name, key="unknown")
+    return len(callees)
+
+
+def size_only_feeds_claims(chk, rule, prog):
+    """the buffer length influences the outcome only through claim_bytes' comparison (prefix monotonicity)"""
+    from ir import Arg, Inst
+    f = prog.fn("cbor_stream_decode")
+    si = f.param_index("source_size")
+    users = f.users(Arg(f, si))
+    n = 0
+    for u in users:
+        n += 1
+        ok = u.op == "call" and u.callee == "claim_bytes" and [k for k, o in enumerate(u.operands) if isinstance(o, Arg) and o.i == si] == [1]
+        chk.ob(rule, "use of source_size at %s" % u.loc(), ok, u.loc(), fn=f.name, key="ssz:%d" % u.line,
+               detail="" if ok else "source_size is used by %r, not only as the 'provided' argument of claim_bytes" % u)
+    c = prog.fn("claim_bytes")
+    pi = c.param_index("provided")
+    chain = c.users(Arg(c, pi))
+    ok = len(chain) == 1 and chain[0].op == "sub"
+    if ok:
+        u2 = c.users(chain[0])
+        ok = len(u2) == 1 and u2[0].op == "icmp" and all(x.op == "br" for x in c.users(u2[0]))
+    chk.ob(rule, "claim_bytes uses 'provided' only in its comparison", ok, "%s:%d" % (c.file, c.line), fn=c.name, key="provided")
+    return n
+
+
+def per_byte(chk, prefix, prog, eff, rules_wanted, by_byte=None):
+    """re-evaluate selected per-byte rules of T-dispatch under another property's name"""
+    import tables as TB
+    if by_byte is None:
+        by_byte, pre, outs = TB.dispatch(prog, eff)
+    names, enumv = status_names(prog)
+    ext_cache = {}
+
+    def loader_ext(name):
+        if name not in ext_cache:
+            ext_cache[name] = TB.read_extent(prog, name, 0)
+        return ext_cache[name]
+    f = prog.fn("cbor_stream_decode")
+    n = 0
+    for b in range(256):
+        ref = TB.ref_dispatch(b)
+        for k, o in enumerate(by_byte[b]):
+            where = "%s:%d" % (f.file, f.line)
+            for rule, ok, detail in check_byte(prog, b, ref, o, enumv, loader_ext):
+                if rule in rules_wanted:
+                    n += 1
+                    chk.ob(prefix + "." + rule, "byte 0x%02X path %d" % (b, k), ok, where, fn=f.name,
+                           key="%02X:%s:%d" % (b, rule, k), detail=detail)
+            if "claim-before-read" in rules_wanted:
+                for ok, detail, ev in claim_before_read(o):
+                    n += 1
+                    chk.ob(prefix + ".claim-before-read", "byte 0x%02X path %d %s" % (b, k, ev.callee or "load"), ok, ev.ins.loc(), fn=f.name,
+                           key="%02X:cbr:%s:%d" % (b, ev.callee or "load", k), detail="" if ok else detail)
+    return n
